@@ -31,7 +31,7 @@ pub fn opt_vol(v: &Value) -> Option<u32> {
 pub fn opt_price(v: &Value) -> Option<u32> {
     match v.as_i64() {
         Some(x) if x == crate::SPEC_MAX_PRICE => Some(u32::MAX),
-        Some(x) if x > 0 => opt_u32(v).map(|p| p.checked_add(crate::price_offset()).expect("harness: price offset too large")),
+        Some(x) if x > 0 => opt_u32(v).map(|p| p.checked_mul(crate::price_scale()).and_then(|p| p.checked_add(crate::price_offset())).expect("harness: translated price out of range")),
         _ => opt_u32(v),
     }
 }
